@@ -612,7 +612,7 @@ DEFAULT_DELIMS = ("{%", "%}", "{{", "}}", "{#", "#}")
 def tag_variants(delims=DEFAULT_DELIMS, extended=False):
     """[(label, [Tag, (text, Tag)...])]: block/comment/raw x left x right modifier, variable x left x {'', '-'}
     (`+}}` is not a delimiter: it lexes as an operator).  extended: additionally the same tags spanning two lines
-    (multi-line expression / comment) and raw blocks whose INNER sides carry '-' (33 more variants)."""
+    (multi-line expression / comment), raw blocks whose INNER sides carry '-' and raw blocks with a whitespace-only body (51 more variants)."""
     bs, be, vs, ve, cs, ce = delims
     out = []
     for l, r in itertools.product(MODS, MODS):
@@ -626,6 +626,10 @@ def tag_variants(delims=DEFAULT_DELIMS, extended=False):
             out.append((f"block2[{l}|{r}]", [Tag("block", l, r, bs + l + " set q =\n 1 " + r + be)]))
             out.append((f"comment2[{l}|{r}]", [Tag("comment", l, r, cs + l + " c\n d " + r + ce)]))
             out.append((f"raw-[{l}|{r}]", [Tag("rawbegin", l, "-", bs + l + " raw -" + be), RAW_BODY, Tag("rawend", "-", r, bs + "- endraw\n" + r + be)]))
+            # raw blocks whose body is whitespace only / starts with whitespace: the body follows `{% raw %}` on its line, so
+            # lstrip_blocks must not touch it whatever precedes the raw tag
+            out.append((f"rawws[{l}|{r}]", [Tag("rawbegin", l, "", bs + l + " raw " + be), " \t ", Tag("rawend", "", r, bs + " endraw " + r + be)]))
+            out.append((f"rawws2[{l}|{r}]", [Tag("rawbegin", l, "", bs + l + " raw " + be), "  \n  ", Tag("rawend", "", r, bs + " endraw " + r + be)]))
             if r != "+":
                 out.append((f"variable2[{l}|{r}]", [Tag("variable", l, r, vs + l + " [v,\n v]|join " + r + ve, "VV")]))
     return out
@@ -801,7 +805,7 @@ def family_sample(seed, n2=1500, ntags=None):
     return ids
 
 
-FAMILY_BOUND = ("the EXTENDED tag set (the 33 variants plus 33 more: the same tags spanning two lines, raw blocks with '-' on their inner sides) "
+FAMILY_BOUND = ("the EXTENDED tag set (the 33 variants plus 51 more: the same tags spanning two lines, raw blocks with '-' on their inner sides, raw blocks whose body is whitespace only) "
                 "written with the delimiter sets default, asp (<% %> <%= %> <!-- -->), dollar (<? ?> ${ } <!-- -->) and shared ({%% %%} {%%= =%%} "
                 "{%%# #%%}): all skeletons with N <= 1 plus 1500 seeded skeletons with N = 2, under the four trim/lstrip settings")
 
